@@ -37,9 +37,17 @@ type Scen struct {
 	Kind string   `json:"kind"` // pair | switch
 	Ops  []string `json:"operations"`
 	Auto bool     `json:"auto_refresh"`
+	// Fine: the read-only file-system calls of a scan (readdir, lstat, open, read) are scheduling
+	// points too, so that a directory can change between a scan's listing and its look at an entry
+	Fine bool `json:"scan_steps_are_scheduling_points,omitempty"`
 }
 
-func (s Scen) String() string { return fmt.Sprintf("%s %v auto=%v", s.Kind, s.Ops, s.Auto) }
+func (s Scen) String() string {
+	if s.Fine {
+		return fmt.Sprintf("%s %v auto=%v fine-grained-scan", s.Kind, s.Ops, s.Auto)
+	}
+	return fmt.Sprintf("%s %v auto=%v", s.Kind, s.Ops, s.Auto)
+}
 
 type Case struct {
 	Scenario Scen     `json:"scenario"`
@@ -86,7 +94,7 @@ func scenario(sn Scen, eager bool, preempt int) *explore.Scenario {
 		root := filepath.Join(scratch, "x")
 		w := c12ops.Setup(root)
 		vw := vfs.Reset(root)
-		vw.CoarseReads = true
+		vw.CoarseReads = !sn.Fine
 		c12ops.RenameFn = vfs.Rename
 		c12ops.MkdirFn = vfs.Mkdir
 		c12ops.RemoveFn = vfs.Remove
@@ -296,6 +304,10 @@ func scenarios(thorough bool) []Scen {
 		}
 		out = append(out, Scen{Kind: "switch", Ops: []string{"ListDevices", "WriteSpec(state B)+Refresh", "Refresh"}, Auto: auto})
 		out = append(out, Scen{Kind: "switch", Ops: []string{"InjectDevices", "WriteSpec(state B)+Refresh", "Refresh"}, Auto: auto})
+		if !auto {
+			// a writer's temporary file appearing and vanishing between the steps of another thread's scan
+			out = append(out, Scen{Kind: "switch", Ops: []string{"ListDevices", "WriteSpec(state B)+Refresh", "Refresh"}, Fine: true})
+		}
 		for i := range ops {
 			for j := i; j < len(ops); j++ {
 				if ops[i].Name == "Switch+Refresh" && ops[j].Name == "Switch+Refresh" {
@@ -499,6 +511,9 @@ func main() {
 							continue
 						}
 						p := preempt
+						if sn.Fine {
+							p = preempt + 1 // listing, a writer's rename, the look at the vanished entry: one switch more than the coarse scenarios need
+						}
 						if sn.Kind == "pair" {
 							p = preempt - 1 // the pair matrix is wide (105 pairs x 2 modes): one preemption less than the switch scenarios
 						}
